@@ -19,7 +19,22 @@ pub fn info() -> PropInfo {
 }
 
 pub fn strategy() -> BoxedStrategy<Case> {
-    issue_spec_strategy(ClaimCfg::FULL, ALL_PATHS, holder_strategy()).prop_map(|issue| C05Case { issue }).boxed()
+    let prelude = prop_oneof![
+        // most cases: a fresh issuer
+        6 => Just(None),
+        // a valid earlier issuance
+        1 => issue_spec_strategy(ClaimCfg::SHORT_F64, HONEST_PATHS, holder_strategy()).prop_map(Some),
+        // a refused earlier issuance: array / scalar claims (with hideable content), reserved name below hidden siblings
+        2 => (issue_spec_strategy(ClaimCfg::SHORT_F64, HONEST_PATHS, holder_strategy()), value_strategy(ClaimCfg::SHORT_F64, 2), 0u8..3).prop_map(|(mut s, v, kind)| {
+            match kind {
+                0 => { s.claims = serde_json::json!([{"a": v}, "x", [1, 2]]); s.strat = sdjwt_model::tree::Strat::AllLevels; }
+                1 => { if !v.is_object() { s.claims = v; } else { s.claims = serde_json::json!("scalar"); } }
+                _ => { if let Some(o) = s.claims.as_object_mut() { o.insert("zz_last".into(), serde_json::json!({"first": v, "inner": [{"_sd": 1}]})); } s.strat = sdjwt_model::tree::Strat::AllLevels; }
+            }
+            Some(s)
+        }),
+    ];
+    (issue_spec_strategy(ClaimCfg::FULL, ALL_PATHS, holder_strategy()), prelude).prop_map(|(issue, prelude)| C05Case { issue, prelude }).boxed()
 }
 
 pub fn plan(tier: Tier) -> Plan<Case> {
